@@ -16,7 +16,8 @@
    Proofs/DefsEquiv*.v (L3, Props/C09.v). *)
 From TV Require Import Base.Prelude Base.Utf8 Base.Winnow Gen.Consts Spec.Abnf Spec.Lex Spec.Defs Spec.Syntax.
 From TV Require Import Model.Tree Model.Parse Model.Document.
-From TV Require Import Proofs.GrammarBase Proofs.GrammarTop.
+From TV Require Import Proofs.LexEquivBase Proofs.GrammarSep Proofs.GrammarBase Proofs.GrammarValueBase Proofs.GrammarValueComplete
+  Proofs.GrammarValueReject Proofs.GrammarTop.
 
 (* Everything the parser accepts is a TOML text whose statements the specification does not
    forbid, within the limits. *)
@@ -37,6 +38,44 @@ Theorem C01_only_limits_refused : forall s stmts T, toml_text s stmts -> verdict
   (forall d, parse_document s <> POk d) -> within_limits stmts = false.
 Proof. exact c01_only_limits_refused. Qed.
 Print Assumptions C01_only_limits_refused.
+
+(* Conversely: a text with a derivation that the specification forbids (a key or table defined
+   twice, a value extended, an ill-defined inline table, ...), or that is outside the limits, is
+   refused — whatever other reading of the text one might try: the parser's ordered choices,
+   `cut_err` commitments and `separated` loops never recover from such a statement. *)
+Theorem C01_invalid_rejected : forall s stmts, toml_text s stmts ->
+  verdict stmts = Invalid \/ within_limits stmts = false -> forall d, parse_document s <> POk d.
+Proof. exact c01_invalid_rejected. Qed.
+Print Assumptions C01_invalid_rejected.
+
+(* "accepts exactly": on any derivation of the text outside class U1, acceptance is validity
+   within the limits.  (A text without any derivation is refused by C01_sound.) *)
+Theorem C01_exact : forall s stmts, toml_text s stmts -> verdict stmts <> Undecided ->
+  ((exists d, parse_document s = POk d) <-> ((exists T, verdict stmts = Valid T) /\ within_limits stmts = true)).
+Proof. exact c01_exact. Qed.
+Print Assumptions C01_exact.
+
+(* ---- values (value.rs `value`, the entry point of arrays, inline tables, key/value lines and
+   Value::from_str) --------------------------------------------------------------------------------
+     val_tok t a     t is a `val` of the grammar denoting the abstract value a;
+     vfollow r       r can follow a value: optional whitespace, then the end of the text, a comment,
+                     a newline, "," "]" or "}";
+     aval_ok a       every inline table in a obeys the definition rules;
+     within d a      the limits, d arrays / inline tables being open around the value;
+     vrel d v a      the tree value v carries exactly the data a denotes (absv v = den a), a is
+                     well-defined and within the limits, v holds values only. *)
+Theorem C01_value_complete : forall t a i r,
+  val_tok t a -> rest i = t ++ r -> vfollow r -> aval_ok a = true -> within (depth i) a = true ->
+  exists v, value_ i = Ok v (adv t i) /\ vrel (depth i) v a.
+Proof. exact value_complete. Qed.
+Print Assumptions C01_value_complete.
+
+(* an ill-defined value, or one outside the limits, is refused with commitment *)
+Theorem C01_value_rejected : forall t a i r,
+  val_tok t a -> rest i = t ++ r -> vfollow r -> aval_ok a && within (depth i) a = false ->
+  exists e j, value_ i = Cut e j.
+Proof. exact value_reject. Qed.
+Print Assumptions C01_value_rejected.
 
 (* ---- non-vacuity ------------------------------------------------------------------------------ *)
 (* a=1 : a derivation, valid, within the limits *)
